@@ -157,6 +157,72 @@ theorem takeFrom_nil (s : St) (id : Nat) (hq : s.sq.lookup id = some []) :
   unfold takeFrom
   rw [hq]
 
+theorem takeFrom_fifo (s : St) (id : Nat) (o : Out) (s' : St) (h : takeFrom s id = (o, s'))
+    (hp : ∀ w, o ≠ .panic w) (hn : o ≠ .nothing) :
+    o.stream = some id ∧ pending s id = o.atoms ++ pending s' id ∧
+    ∀ j, j ≠ id → pending s' j = pending s j := by
+  cases hq : s.sq.lookup id with
+  | none => rw [takeFrom_none s id hq] at h; simp only [Prod.mk.injEq] at h; exact absurd h.1.symm (hp _)
+  | some q =>
+    match q, hq with
+    | [], hq => rw [takeFrom_nil s id hq] at h; simp only [Prod.mk.injEq] at h; exact absurd h.1.symm (hp _)
+    | .hdr e0 :: rest, hq =>
+      rw [takeFrom_hdr s id e0 rest hq] at h
+      simp only [Prod.mk.injEq] at h
+      obtain ⟨ho, hs⟩ := h
+      subst ho hs
+      refine ⟨rfl, ?_, fun j hj => pending_shiftQ_other s id j rest hj⟩
+      rw [pending_shiftQ_self]
+      unfold pending; rw [hq]; simp [qAtoms, Wr.atoms, Out.atoms]
+    | .data msg off len e :: rest, hq =>
+      have hpend : pending s id = Wr.atoms (.data msg off len e) ++ qAtoms rest := by
+        unfold pending; rw [hq]; simp [qAtoms]
+      by_cases hl0 : len = 0
+      · subst hl0
+        rw [takeFrom_zero s id msg off e rest hq] at h
+        simp only [Prod.mk.injEq] at h
+        obtain ⟨ho, hs⟩ := h
+        subst ho hs
+        refine ⟨rfl, ?_, fun j hj => pending_shiftQ_other s id j rest hj⟩
+        rw [pending_shiftQ_self, hpend]; simp [Wr.atoms, Out.atoms]
+      · cases hw : s.streams.lookup id with
+        | none =>
+          rw [takeFrom_nostream s id msg off len e rest hq hw (by omega)] at h
+          simp only [Prod.mk.injEq] at h; exact absurd h.1.symm (hp _)
+        | some w =>
+          rw [takeFrom_data s id msg off len e rest w hq hw (by omega)] at h
+          simp only [] at h
+          split at h
+          · simp only [Prod.mk.injEq] at h; exact absurd h.1.symm hn
+          · split at h
+            · split at h
+              · simp only [Prod.mk.injEq] at h; exact absurd h.1.symm (hp _)
+              · rename_i hgt hneg
+                simp only [Prod.mk.injEq] at h
+                obtain ⟨ho, hs⟩ := h
+                subst ho hs
+                refine ⟨rfl, ?_, ?_⟩
+                · rw [hpend]
+                  unfold pending
+                  simp only [lookup_setKey, beq_self_eq_true, if_true, Option.getD_some]
+                  simp only [qAtoms, List.flatMap_cons, Wr.atoms, Out.atoms]
+                  rw [bytesOf_split msg off (allowedOf s.mfs (availOf s.conn w)).toNat len
+                    (by omega)]
+                  simp [List.append_assoc]
+                · intro j hj
+                  have hjb : (j == id) = false := by simp [hj]
+                  unfold pending
+                  simp [lookup_setKey, hjb]
+            · simp only [Prod.mk.injEq] at h
+              obtain ⟨ho, hs⟩ := h
+              subst ho hs
+              refine ⟨rfl, ?_, ?_⟩
+              · rw [pending_shiftQ_self, hpend]; simp [Wr.atoms, Out.atoms]
+              · intro j hj
+                rw [pending_shiftQ_other _ id j rest hj]
+                unfold pending debit; rfl
+
+
 theorem scan_found (sq : List (Nat × List Wr)) (ord : List Nat) (id : Nat)
     (h : scanNoCost sq ord = .found id) : (sq.lookup id).isSome = true := by
   induction ord with
@@ -195,5 +261,206 @@ theorem take_cases' (s : St) (o1 o2 : List Nat) :
             simp only [Bool.and_eq_true] at this
             exact Or.inr (Or.inr (Or.inr ⟨id, this.1, rfl⟩))
 
+
+/-! ### trace level: many operations -/
+
+theorem pending_sq (s1 s2 : St) (id : Nat) (h : s1.sq = s2.sq) : pending s1 id = pending s2 id := by
+  unfold pending; rw [h]
+
+theorem pending_forget_other (s : St) (j id : Nat) (h : id ≠ j) : pending (forget s j) id = pending s id := by
+  have hb : (id == j) = false := by simp [h]
+  unfold pending forget; simp [lookup_delKey, hb]
+
+theorem forget_lookup_self (s : St) (id : Nat) : (forget s id).streams.lookup id = none := by
+  simp [forget, lookup_delKey]
+
+theorem pending_pushQ (s : St) (i id : Nat) (w : Wr) :
+    pending (pushQ s i w) id = if i = id then pending s id ++ w.atoms else pending s id := by
+  unfold pushQ pending
+  by_cases h : i = id
+  · subst h
+    split <;> rename_i hq <;> simp [lookup_setKey, hq, qAtoms]
+  · have hb : (id == i) = false := by simp [Ne.symm h]
+    split <;> simp [lookup_setKey, hb, h]
+
+/-- atoms of stream `id` put on the wire by a frame -/
+def sentBy (id : Nat) : Option Out → List Atom
+  | some o => if o.stream = some id then o.atoms else []
+  | none => []
+
+theorem takeFrom_inert (s : St) (j : Nat) (h : (∃ w, (takeFrom s j).1 = .panic w) ∨ (takeFrom s j).1 = .nothing) :
+    (takeFrom s j).2 = s := by
+  cases hq : s.sq.lookup j with
+  | none => rw [takeFrom_none s j hq]
+  | some q =>
+    match q, hq with
+    | [], hq => rw [takeFrom_nil s j hq]
+    | .hdr e0 :: rest, hq => rw [takeFrom_hdr s j e0 rest hq] at h; simp at h
+    | .data msg off len e :: rest, hq =>
+      by_cases hl0 : len = 0
+      · subst hl0; rw [takeFrom_zero s j msg off e rest hq] at h; simp at h
+      · cases hw : s.streams.lookup j with
+        | none => rw [takeFrom_nostream s j msg off len e rest hq hw (by omega)]
+        | some w =>
+          rw [takeFrom_data s j msg off len e rest w hq hw (by omega)] at h ⊢
+          simp only [] at h ⊢
+          split
+          · rfl
+          · rename_i h0
+            simp only [h0, if_false] at h
+            split
+            · rename_i hgt
+              simp only [hgt, if_true] at h
+              split
+              · rfl
+              · rename_i hneg; simp [hneg] at h
+            · rename_i hgt; simp [hgt] at h
+
+theorem takeFrom_keeps (s : St) (j id : Nat) :
+    pending s id = sentBy id (some (takeFrom s j).1) ++ pending (takeFrom s j).2 id := by
+  by_cases hin : (∃ w, (takeFrom s j).1 = .panic w) ∨ (takeFrom s j).1 = .nothing
+  · rw [takeFrom_inert s j hin]
+    rcases hin with ⟨w, hw⟩ | hn
+    · rw [hw]; simp [sentBy, Out.stream]
+    · rw [hn]; simp [sentBy, Out.stream]
+  · have hp : ∀ w, (takeFrom s j).1 ≠ .panic w := fun w hw => hin (Or.inl ⟨w, hw⟩)
+    have hn : (takeFrom s j).1 ≠ .nothing := fun h => hin (Or.inr h)
+    obtain ⟨hs, hpre, hoth⟩ := takeFrom_fifo s j (takeFrom s j).1 (takeFrom s j).2 rfl hp hn
+    by_cases hji : j = id
+    · subst hji; simp [sentBy, hs, hpre]
+    · have : ¬ (some j = some id) := by simpa using hji
+      simp only [sentBy, hs, this, if_false, List.nil_append]
+      exact (hoth id (Ne.symm hji)).symm
+
+theorem take_keeps (s : St) (o1 o2 : List Nat) (id : Nat) :
+    pending s id = sentBy id (some (take s o1 o2).1) ++ pending (take s o1 o2).2 id := by
+  unfold take
+  split
+  · simp [sentBy, Out.stream]
+  · split
+    · simp only [sentBy, Out.stream]
+      simp only [reduceCtorEq, if_false, List.nil_append]
+      exact pending_sq _ _ id rfl
+    · split
+      · simp [sentBy, Out.stream]
+      · split
+        · simp [sentBy, Out.stream]
+        · exact takeFrom_keeps s _ id
+        · split
+          · simp [sentBy, Out.stream]
+          · exact takeFrom_keeps s _ id
+
+theorem takeW_keeps (s : St) (o1 o2 : List Nat) (id : Nat)
+    (ha : (takeW s o1 o2).2.streams.lookup id ≠ none) :
+    pending s id = sentBy id (some (takeW s o1 o2).1) ++ pending (takeW s o1 o2).2 id := by
+  have hk := take_keeps s o1 o2 id
+  unfold takeW at ha ⊢
+  simp only [] at ha ⊢
+  split
+  · rename_i j hj
+    simp only [hj] at ha
+    by_cases hji : id = j
+    · subst hji; exact absurd (forget_lookup_self _ id) ha
+    · simp only []
+      rw [pending_forget_other _ j id hji]; exact hk
+  · exact hk
+
+/-- what an operation appends to the queue of stream `id` -/
+def addedBy (s : St) (msg id : Nat) : Op → List Atom
+  | .addData i len e => if i = id ∧ (s.streams.lookup i).isSome then Wr.atoms (.data msg 0 len e) else []
+  | .addHdr i e => if i = id ∧ (s.streams.lookup i).isSome then Wr.atoms (.hdr e) else []
+  | _ => []
+
+theorem step_keeps (s : St) (msg : Nat) (op : Op) (id : Nat)
+    (ha : (step s msg op).2.2.streams.lookup id ≠ none) :
+    pending s id ++ addedBy s msg id op =
+      sentBy id (step s msg op).2.1 ++ pending (step s msg op).2.2 id := by
+  cases op with
+  | openS j =>
+    simp only [step, addedBy, List.append_nil]
+    split
+    · simp [sentBy]
+    · split <;> simp [sentBy] <;> exact pending_sq _ _ id rfl
+  | addData i len e =>
+    simp only [step, addedBy]
+    by_cases hs : (s.streams.lookup i).isSome = true
+    · simp only [hs, if_true, and_true, sentBy, List.nil_append, pending_pushQ]
+      split <;> simp
+    · simp [hs, sentBy]
+  | addHdr i e =>
+    simp only [step, addedBy]
+    by_cases hs : (s.streams.lookup i).isSome = true
+    · simp only [hs, if_true, and_true, sentBy, List.nil_append, pending_pushQ]
+      split <;> simp
+    · simp [hs, sentBy]
+  | addCtl =>
+    simp only [step, addedBy, List.append_nil, sentBy, List.nil_append]
+    exact pending_sq _ _ id rfl
+  | takeOp o1 o2 =>
+    simp only [step, addedBy, List.append_nil] at ha ⊢
+    exact takeW_keeps s o1 o2 id ha
+  | wu j inc =>
+    simp only [step, addedBy, List.append_nil] at ha ⊢
+    split
+    · split <;> simp [sentBy] <;> exact pending_sq _ _ id rfl
+    · rename_i hj0
+      simp only [hj0, if_false] at ha
+      split
+      · simp [sentBy]
+      · rename_i n hn
+        simp only [hn] at ha
+        split
+        · simp [sentBy]; exact pending_sq _ _ id rfl
+        · rename_i hadd
+          simp only [hadd] at ha
+          by_cases hji : id = j
+          · subst hji; exact absurd (forget_lookup_self _ id) ha
+          · simp only [sentBy, List.nil_append]
+            exact (pending_forget_other s j id hji).symm
+  | setIws v =>
+    simp only [step, addedBy, List.append_nil]
+    split <;> simp [sentBy] <;> exact pending_sq _ _ id rfl
+  | setMfs v =>
+    simp only [step, addedBy, List.append_nil, sentBy, List.nil_append]
+    exact pending_sq _ _ id rfl
+  | forgetOp j =>
+    simp only [step, addedBy, List.append_nil] at ha ⊢
+    split
+    · rename_i hex
+      simp only [hex, if_true] at ha
+      by_cases hji : id = j
+      · subst hji; exact absurd (forget_lookup_self _ id) ha
+      · simp only [sentBy, List.nil_append]
+        exact (pending_forget_other s j id hji).symm
+    · simp [sentBy]
+
+def nextMsg (msg : Nat) : Op → Nat
+  | .addData .. => msg + 1
+  | _ => msg
+
+/-- run a list of operations; collect, for stream `id`, what was put on the wire and what was queued -/
+def trace (id : Nat) : St → Nat → List Op → St × List Atom × List Atom
+  | s, _, [] => (s, [], [])
+  | s, msg, op :: r =>
+    let t := trace id (step s msg op).2.2 (nextMsg msg op) r
+    (t.1, sentBy id (step s msg op).2.1 ++ t.2.1, addedBy s msg id op ++ t.2.2)
+
+/-- stream `id` is still a stream of the connection after every one of the operations -/
+def aliveAfterEach (id : Nat) : St → Nat → List Op → Prop
+  | _, _, [] => True
+  | s, msg, op :: r =>
+    (step s msg op).2.2.streams.lookup id ≠ none ∧ aliveAfterEach id (step s msg op).2.2 (nextMsg msg op) r
+
+theorem trace_keeps (id : Nat) (ops : List Op) : ∀ (s : St) (msg : Nat), aliveAfterEach id s msg ops →
+    pending s id ++ (trace id s msg ops).2.2 = (trace id s msg ops).2.1 ++ pending (trace id s msg ops).1 id := by
+  induction ops with
+  | nil => intro s msg _; simp [trace]
+  | cons op r ih =>
+    intro s msg h
+    obtain ⟨h1, h2⟩ := h
+    have hs := step_keeps s msg op id h1
+    have hr := ih _ _ h2
+    simp only [trace]
+    rw [← List.append_assoc, hs, List.append_assoc, hr, List.append_assoc]
 
 end BfeVerif.C34
